@@ -980,6 +980,22 @@ func (x *Exec) compositeLit(e *ast.CompositeLit, st *State) Value {
 			}
 		}
 		return sv
+	case *types.Map:
+		m := x.newMap(st, "maplit")
+		for _, el := range e.Elts {
+			kv, ok := el.(*ast.KeyValueExpr)
+			if !ok {
+				return x.opaque(st, e, "map literal element")
+			}
+			kval := x.exprT(kv.Key, st, u.Key())
+			k, ok := x.keyID(st, u.Key(), kval)
+			if !ok {
+				return x.opaque(st, e, "map literal with unmodelled key")
+			}
+			v := x.exprT(kv.Value, st, u.Elem())
+			x.mapSet(st, u, m, k, x.convertTo(st, v, x.info.TypeOf(kv.Value), u.Elem()))
+		}
+		return Sc{m}
 	case *types.Slice, *types.Array:
 		var elemT types.Type
 		if s, ok := u.(*types.Slice); ok {
